@@ -24,6 +24,7 @@ PLANS = {
         "level": "other",
         "sidecars": ["serialise", "params", "driver", "grouping", "patching", "residues", "cellproto", "repair"],
         "extras": [{"name": "c03_atom_set_table", "module": "tables.x_checks", "func": "c03_atom_sets", "python": "vt"},
+                   {"name": "report_filter", "module": "tables.report_filter", "func": "run", "python": "vt"},
                    {"name": "c07_records", "module": "bounded.c07_records", "func": "run", "python": "venv", "timeout": 3000}],
         "explanation": "Contracts decide the bookkeeping: apply_force_field partitions the model into written / unassigned, "
                        "non_trivial serialises exactly the written list and returns the other, print_biomolecule_atoms emits "
